@@ -24,6 +24,8 @@ CONSTANTS
   FailSet = {0, 1, 2, 3}
   MaxReq = 2
   SharedBuf = FALSE
+  Deadl = TRUE
+  KACloseOnDone = FALSE
   MmEncodeInAdd = TRUE
 INVARIANTS TypeOK NoRace NoUseAfterFinish NoSplice PreFirst InOrder CompleteLast SseComplete PingsOnlyIfConfigured MmFramed MmOrder MmNoEmpty MmComplete SseFailed MmFailed NoGarbage NoCrash MmTickerStoppedAtReturn
 CHECK_DEADLOCK FALSE
